@@ -438,6 +438,39 @@ def xstep (x : XState) : XOp → XState
 
 def xrun (x : XState) (ops : List XOp) : XState := ops.foldl xstep x
 
+/-! ## Wave 7 — receiver ids that are not naturals; two models alive at once
+
+`Event` accepts any int or float as `receiver_id`.  The repaired scheduler looks the receiver up by EQUALITY
+(`agents_by_id.get(receiver_id)`): a float equal to an id is that id, a negative or fractional number is nobody's
+id and the event is dropped; positional routing `model.agents[receiver_id]` would hand a negative id to an agent
+counted from the END of the list.  The queue `model.events`, the inboxes and `scheduler.delayed_events` are instance
+attributes: two models in one process do not see each other's events (`queuePerModel`). -/
+
+/-- Python's `agents[i]` for an int `i` -/
+def pyIndex (as : List Agent) (i : Int) : Option Nat :=
+  if 0 ≤ i then (as[i.toNat]?).map (·.id)
+  else if i.natAbs ≤ as.length then (as[as.length - i.natAbs]?).map (·.id) else none
+
+/-- lookup by id equality for an arbitrary integer receiver id -/
+def byIdInt (as : List Agent) (i : Int) : Option Nat :=
+  if 0 ≤ i then (if hasId as i.toNat then some i.toNat else none) else none
+
+structure TwoS where
+  a : State
+  b : State
+
+def stepTwoS (perModel : Bool) (t : TwoS) (x : Bool × Op) : TwoS :=
+  if x.1 then
+    let a' := step t.a x.2
+    { a := a', b := if perModel then t.b else { t.b with events := a'.events } }
+  else
+    let b' := step t.b x.2
+    { a := if perModel then t.a else { t.a with events := b'.events }, b := b' }
+
+def runTwoS (perModel : Bool) (t : TwoS) (ops : List (Bool × Op)) : TwoS := ops.foldl (stepTwoS perModel) t
+
+def opsForS (who : Bool) (ops : List (Bool × Op)) : List Op := (ops.filter (fun x => x.1 == who)).map (·.2)
+
 /-! ### delay in time units → delay in steps
 
 `delay = dn/dd`, `dt = tn/td` (decimal readings of the Python numbers, as fractions of naturals).
